@@ -15,6 +15,7 @@ from typing import Any, Callable, DefaultDict, Dict, Generator, Iterator, List, 
 
 from harness.common import ASSUME, FAIL, PASS, check, tape_harness  # noqa: F401
 from harness import oracles as O
+from harness.known import listed
 from harness.stubeval import StubError, parse_stub
 from harness.types import TGrammar, build_type
 from vfix import classes as K
@@ -61,7 +62,7 @@ def dotted_names(max_len, alphabet="ab"):
 
 NAMES3 = dotted_names(3)
 NAMES4 = dotted_names(4)
-PLACEMENTS = ("top", "nested", "like_module")
+PLACEMENTS = ("top", "nested", "like_module", "like_module_nested")
 CONTEXTS = ("bare", "List", "Optional", "DictValue")
 
 
@@ -73,9 +74,13 @@ def _mk_class(module, placement, tag):
     elif placement == "nested":
         cls = type("I", (), {})
         cls.__qualname__ = "O" + tag + ".I"
-    else:
+    elif placement == "like_module":
         last = module.split(".")[-1]
         cls = type(last, (), {})
+    else:  # a class nested in a class that is named like the last segment of its module
+        last = module.split(".")[-1]
+        cls = type("I", (), {})
+        cls.__qualname__ = last + ".I"
     cls.__module__ = module
     return cls
 
@@ -95,7 +100,15 @@ def _expected_text(ctx, cls):
     return {"bare": q, "List": f"List[{q}]", "Optional": f"Optional[{q}]", "DictValue": f"Dict[str, {q}]"}[ctx]
 
 
-def collide_body(t, i1, i2, names, contexts=CONTEXTS):
+def ambiguous_dotted_text(cls, modules):
+    """Known finding C11-ambiguous-dotted-name: '<module>.<qualname>' of cls is, as text, also
+    '<longer imported module>.<rest>' -- the two parses of the dotted name cannot be told apart by a
+    renderer that strips module prefixes textually."""
+    full = cls.__module__ + "." + cls.__qualname__
+    return any(m != cls.__module__ and len(m) > len(cls.__module__) and full.startswith(m + ".") for m in modules)
+
+
+def collide_body(t, i1, i2, names, contexts=CONTEXTS, honour_known=True):
     n = len(names)
     ASSUME(0 <= i1)
     ASSUME(i1 < n)
@@ -107,11 +120,13 @@ def collide_body(t, i1, i2, names, contexts=CONTEXTS):
             m1 = names[j]
         if i2 == j:
             m2 = names[j]
-    p1, p2 = PLACEMENTS[t.take(3)], PLACEMENTS[t.take(3)]
+    p1, p2 = PLACEMENTS[t.take(len(PLACEMENTS))], PLACEMENTS[t.take(len(PLACEMENTS))]
     c1, c2 = contexts[t.take(len(contexts))], contexts[t.take(len(contexts))]
     target = "zz.target"
     cls1, cls2 = _mk_class(m1, p1, "1"), _mk_class(m2, p2, "2")
     ASSUME(not (m1 == m2 and cls1.__qualname__.split(".")[0] == cls2.__qualname__.split(".")[0] and cls1 is not cls2))
+    if honour_known and listed("C11-ambiguous-dotted-name"):
+        ASSUME(not ambiguous_dotted_text(cls1, (m1, m2)) and not ambiguous_dotted_text(cls2, (m1, m2)))
     sig = inspect.Signature(
         [inspect.Parameter("x", inspect.Parameter.POSITIONAL_OR_KEYWORD, annotation=_wrap(c1, cls1)),
          inspect.Parameter("y", inspect.Parameter.POSITIONAL_OR_KEYWORD, annotation=_wrap(c2, cls2))],
@@ -150,6 +165,8 @@ def _parse_import_block(text):
 tape_harness("collide3q", [("t", 4)], {"i1": "int", "i2": "int"}, lambda t, i1, i2: collide_body(t, i1, i2, NAMES3, ("bare", "List")), globals())
 tape_harness("collide3", [("t", 4)], {"i1": "int", "i2": "int"}, lambda t, i1, i2: collide_body(t, i1, i2, NAMES3), globals())
 tape_harness("collide4", [("t", 4)], {"i1": "int", "i2": "int"}, lambda t, i1, i2: collide_body(t, i1, i2, NAMES4), globals())
+# witness harness for the known finding: the class of inputs is NOT assumed away here
+tape_harness("collide3_witness", [("t", 4)], {"i1": "int", "i2": "int"}, lambda t, i1, i2: collide_body(t, i1, i2, NAMES3, CONTEXTS, False), globals())
 
 
 # ================================================================ (B) translation validation
@@ -269,7 +286,7 @@ def shards(name, prefix=3):
     if name.startswith("collide"):
         names = NAMES3 if name.startswith("collide3") else NAMES4
         step = 1 if len(names) <= 20 else 4
-        return [{"i1": i} for i in range(len(names))] if step == 1 else [{"i1": i, "t0": p} for i in range(len(names)) for p in range(3)]
+        return [{"i1": i} for i in range(len(names))] if step == 1 else [{"i1": i, "t0": p} for i in range(len(names)) for p in range(len(PLACEMENTS))]
     g, cx, ps = _TV[name]
     return [{f"t{j}": v for j, v in enumerate(p)} for p in enumerate_prefixes(lambda t: tv_body(t, g, cx, ps), prefix)]
 
@@ -285,7 +302,7 @@ def describe(name, args):
         i1, i2 = args["i1"], args["i2"]
         ok = 0 <= i1 < len(names) and 0 <= i2 < len(names)
         return {"m1": names[i1] if ok else i1, "m2": names[i2] if ok else i2,
-                "placements": [PLACEMENTS[t.take(3)], PLACEMENTS[t.take(3)]], "contexts": [cxs[t.take(len(cxs))], cxs[t.take(len(cxs))]]}
+                "placements": [PLACEMENTS[t.take(len(PLACEMENTS))], PLACEMENTS[t.take(len(PLACEMENTS))]], "contexts": [cxs[t.take(len(cxs))], cxs[t.take(len(cxs))]]}
     g, cx, ps = _TV[name]
     position = ps[t.take(len(ps))]
     ctx = cx[t.take(len(cx))]
